@@ -240,6 +240,11 @@ def run(ctx):
                 ctx.violation("%s: the program hung or crashed (rc=%s) while running a case" % (what, rc2), {"case": missing, "flavour": fl, "reps": reps})
             expl_cov[fl] = agg
 
+    if ctx.thorough() and res.ok and not ctx.replay:
+        rcq, outq = vcheck.coqchk("LV.Properties.Properties_C05")
+        ctx.coverage["coqchk"] = "ok" if rcq == 0 else outq[-400:]
+        if rcq != 0:
+            ctx.violation("coqchk rejects LV.Properties.Properties_C05", {"coqchk": outq[-1500:]}, no_input=True)
     if not res.ok:
         ctx.violation("Coq obligations of C05 do not check: %s" % (res.failed[:2],), {"theorem": [f[2] for f in res.failed], "errors": res.failed[:3]}, no_input=True)
     ctx.coverage.update({
